@@ -1,1 +1,2 @@
 pub mod cbor;
+pub mod proto;
